@@ -34,8 +34,9 @@ def _arr(vals, dtype, shape=None):
 class Data:
     """Symbolic row data for one configuration."""
 
-    def __init__(self, eng, cfg):
+    def __init__(self, eng, cfg, tag=""):
         self.cfg = cfg
+        self.tag = tag
         N = self.N = cfg["N"]
         self.Es = cfg["E"] if isinstance(cfg["E"], list) else [cfg["E"]] * len(cfg["dims"])
         self.extras = [tuple(e) for e in cfg["dims"]]            # extra axes per dimension
@@ -44,7 +45,7 @@ class Data:
         for d, extra in enumerate(self.extras):
             per = {}
             for sub in itertools.product(*[range(e) for e in extra]):
-                cs = [z3.Int("c%d_%s_%d" % (d, "_".join(map(str, sub)), r)) for r in range(N)]
+                cs = [z3.Int("%sc%d_%s_%d" % (tag, d, "_".join(map(str, sub)), r)) for r in range(N)]
                 for c in cs:
                     eng.assume(c >= 0, c < self.Es[d])
                 per[sub] = cs
@@ -55,9 +56,9 @@ class Data:
         if form != "none":
             # integer facts: Real variables marked integer-valued (a superset of the integers; the
             # library's arithmetic on them is identical, casts are the identity) -> VCs stay in real arithmetic
-            self.vt = [[z3.Real("v%d_%d" % (r, k)) for k in range(K)] for r in range(N)]
-            self.vvalid = [[z3.Bool("fv%d_%d" % (r, k)) for k in range(K)] for r in range(N)]
-            self.hidden_nan = [[z3.Bool("hn%d_%d" % (r, k)) for k in range(K)] for r in range(N)]
+            self.vt = [[z3.Real("%sv%d_%d" % (tag, r, k)) for k in range(K)] for r in range(N)]
+            self.vvalid = [[z3.Bool("%sfv%d_%d" % (tag, r, k)) for k in range(K)] for r in range(N)]
+            self.hidden_nan = [[z3.Bool("%shn%d_%d" % (tag, r, k)) for k in range(K)] for r in range(N)]
             for row in self.vt:
                 for t in row:
                     # magnitudes bounded (rounding in replays stays far below the comparison tolerance)
